@@ -3,6 +3,181 @@ open Lean (Json)
 namespace FtDriver
 open Ft
 
-def handleC18 (_j : Json) : Except String Verdict := throw "C18: not implemented"
+/-! C18 — format footprints.  Case layout (harness/props/c18.py):
+  D        number of ranks (≥ 1)
+  dflt     leaf default of the tensor
+  spec     {"root": dict|null, "ranks": [dict|null …]}   dict = [[key, value] …] in Python order
+  points   [[c …] …] coordinate prefixes queried with getFiber / getSubTree
+  impl     {"outcome": "ok"|"rejected",
+            "state": tree snapshot of the tensor, "shape": [n …] (tensor.getShape()),
+            "ranklists": [[[path|null, len] …] …]  (Rank.getFibers(), identity as path),
+            "filled": {"root": dict, "ranks": [dict …]},
+            "root": n, "ranks": [n …], "tensor": n, "tensor2": n,
+            "fiber": [n|null …], "subtree": [n|null …]}
+-/
+
+def parseSpecVal (j : Json) : Except String (Option SpecVal) :=
+  match j with
+  | .str s => pure (some (SpecVal.str s))
+  | .num _ =>
+    match j.getInt? with
+    | .ok i => if i < 0 then pure none else pure (some (SpecVal.int i.toNat))
+    | .error _ => pure (some SpecVal.other)
+  | _ => pure (some SpecVal.other)
+
+/-- `none` = contains a negative int (outside the model: widths are `Nat`) -/
+def parseDict (j : Json) : Except String (Option SpecDict) := do
+  let arr ← asList j
+  let mut out : SpecDict := []
+  for kv in arr do
+    match (← asList kv) with
+    | [k, v] =>
+      match (← parseSpecVal v) with
+      | some sv => out := out ++ [((← k.getStr?), sv)]
+      | none => return none
+    | _ => throw "dict entry"
+  return some out
+
+/-- an optional dict (`null` = key missing) -/
+def parseOptDict (j : Json) : Except String (Option (Option SpecDict)) := do
+  if j.isNull then return some none
+  match (← parseDict j) with
+  | some d => return some (some d)
+  | none => return none
+
+def optNat (j : Json) : Except String (Option Nat) :=
+  if j.isNull then pure none else do pure (some (← j.getNat?))
+
+def optNatJson : Option Nat → Json
+  | none => Json.null
+  | some n => jNat n
+
+def parseEntry (j : Json) : Except String FpRankEntry := do
+  match (← asList j) with
+  | [p, o] =>
+    let path ← if p.isNull then pure none else do pure (some (← asInts p))
+    pure (path, (← o.getNat?))
+  | _ => throw "rank entry"
+
+def sameDict (keys : List String) (a b : SpecDict) : Bool :=
+  keys.all (fun k => lookup a k == lookup b k) && a.length == b.length
+
+/-- fiber footprint read off the statement: header + (c + p) bits × occupancy | shape -/
+def fiberStmt (l : FpLevel) (occ : Nat) : Nat :=
+  l.fhbits + (l.cbits + l.pbits) * (match l.format with | .C => occ | .U => l.shape)
+
+def fmtStr (l : FpLevel) : String := match l.format with | .C => "C" | .U => "U"
+
+/-- branch tags from a walk of the tree -/
+def treeTags (dflt : Int) (lv : Nat → FpLevel) : (d : Nat) → T (d + 1) → List String
+  | 0, f =>
+    let l := lv 0
+    let fl := (show List (Int × Int) from f)
+    (if fl.isEmpty then ["empty-leaf-fiber"] else []) ++
+    (if fl.any (fun e => e.2 == dflt) then ["explicit-default"] else []) ++
+    (if l.format == .U && fl.any (fun e => e.1 < 0 || e.1 ≥ (l.shape : Int)) then ["oob"] else [])
+  | d + 1, f =>
+    let l := lv (d + 1)
+    let fl := (show List (Int × T (d + 1)) from f)
+    (if fl.any (fun e => isEmpty dflt (d + 1) e.2) then
+        [if l.format == .C then "C-skips-empty-child" else "U-visits-empty-child"] else []) ++
+    (if l.format == .U && (List.range l.shape).any (fun c => (lookup fl (c : Int)).isNone)
+      then ["U-synth-child"] else []) ++
+    (if l.format == .U && fl.any (fun e => e.1 < 0 || e.1 ≥ (l.shape : Int)) then ["oob"] else []) ++
+    (fl.flatMap (fun e => treeTags dflt lv d e.2))
+
+def handleC18 (j : Json) : Except String Verdict := do
+  let nR ← fNat j "D"
+  if nR = 0 then return { agree := true, spec := true, tags := ["OUT_OF_MODEL"] }
+  let D := nR - 1
+  let dflt := fIntD j "dflt" 0
+  let specJ ← field j "spec"
+  let impl ← field j "impl"
+  let outcome ← fStr impl "outcome"
+  let some rootGiven ← parseOptDict (← field specJ "root")
+    | return { agree := true, spec := true, tags := ["OUT_OF_MODEL"] }
+  let ranksGivenO ← (← fArr specJ "ranks").mapM parseOptDict
+  if ranksGivenO.any (·.isNone) || ranksGivenO.length != nR then
+    return { agree := true, spec := true, tags := ["OUT_OF_MODEL"] }
+  let ranksGiven : List (Option SpecDict) := ranksGivenO.map (fun o => (o.getD none))
+  let mtags := (if rootGiven.isNone then ["root-key-missing"] else []) ++
+    (if ranksGiven.any (·.isNone) then ["rank-key-missing"] else []) ++
+    (if ranksGiven.any (fun e => (e.getD []).length < 6) then ["fields-defaulted"] else [])
+  match checkFillSpec rootGiven ranksGiven with
+  | none =>
+    -- the model's `_checkFillSpec` asserts: the implementation must reject too
+    let ok := outcome == "rejected"
+    return { agree := ok, spec := true, model := Json.str "rejected", tags := ["spec-rejected"] ++ mtags,
+             why := if ok then "" else "model rejects the spec, implementation accepted it" }
+  | some (rootF, ranksF) =>
+    if outcome != "ok" then
+      return { agree := false, spec := false, model := Json.str "ok", tags := ["impl-raised"] ++ mtags,
+               why := "implementation raised on a legal spec: " ++ outcome }
+    let state ← fTree impl "state" (D + 1)
+    if !wfB (D + 1) state then return { agree := true, spec := true, tags := ["OUT_OF_MODEL"] }
+    let shape ← asInts (← field impl "shape")
+    if shape.length != nR || shape.any (· < 0) then
+      return { agree := true, spec := true, tags := ["OUT_OF_MODEL"] }
+    -- levels by height: rank i ↦ height D - i
+    let levelsTop : List FpLevel := (ranksF.zip shape).map (fun es => levelOf es.1 es.2.toNat)
+    let byHeight := levelsTop.reverse
+    let lv : Nat → FpLevel := fun h => byHeight.getD h {}
+    -- what the implementation filled in
+    let filledJ ← field impl "filled"
+    let some rootImpl ← parseDict (← field filledJ "root")
+      | return { agree := true, spec := true, tags := ["OUT_OF_MODEL"] }
+    let ranksImplO ← (← fArr filledJ "ranks").mapM parseDict
+    if ranksImplO.any (·.isNone) then return { agree := true, spec := true, tags := ["OUT_OF_MODEL"] }
+    let ranksImpl : List SpecDict := ranksImplO.map (·.getD [])
+    let filledAgree := sameDict specRootKeys rootF rootImpl && ranksImpl.length == ranksF.length &&
+      (ranksF.zip ranksImpl).all (fun ab => sameDict specRankKeys ab.1 ab.2)
+    let filledSpec := specFilledB specRootDefault specRootKeys (rootGiven.getD []) rootImpl &&
+      ranksImpl.length == ranksGiven.length &&
+      (ranksGiven.zip ranksImpl).all (fun ab => specFilledB specRankDefault specRankKeys (ab.1.getD []) ab.2)
+    -- rank lists
+    let ranklists ← (← fArr impl "ranklists").mapM (fun r => do (← asList r).mapM parseEntry)
+    let mirror := fpMirrorB D state ranklists && ranklists.length == nR
+    -- numbers reported by the implementation
+    let iRoot ← fNat impl "root"
+    let iRanks ← (← fArr impl "ranks").mapM (·.getNat?)
+    let iTensor ← fNat impl "tensor"
+    let iTensor2 ← fNat impl "tensor2"
+    let iFiber ← (← fArr impl "fiber").mapM optNat
+    let iSub ← (← fArr impl "subtree").mapM optNat
+    let points ← (← fArr j "points").mapM asInts
+    -- the model (the code's algorithms)
+    let rootBits := fpGetRoot rootF
+    let mRanks := (List.range nR).map (fun i => fpGetRank (lv (D - i)) (ranklists.getD i []))
+    let mTensor := fpGetTensor rootBits lv D ranklists
+    let mFiber := points.map (fpGetFiber lv D state)
+    let mSub := points.map (fpGetSubTree dflt lv D state)
+    let agree := filledAgree && iRoot == rootBits && iRanks == mRanks && iTensor == mTensor &&
+      iTensor2 == mTensor && iFiber == mFiber && iSub == mSub
+    -- the specification (sums recomputed from raw walks of the tree), on the impl's numbers
+    let sRanks := (List.range nR).map (fpRankSpec lv D state)
+    let sTensor := fpTensorSpec rootBits lv D state
+    let sFiber := points.map (fun p => (fpDescend D state p).map (fun it => fiberStmt (lv it.h) (fpOcc it.h it.f)))
+    let sSub := points.map (fpSubTreeAtSpec dflt lv D state)
+    let checks : List (String × Bool) := [
+      ("filled-defaults", filledSpec), ("root", iRoot == rootBits), ("rank", iRanks == sRanks),
+      ("tensor", iTensor == sTensor), ("tensor-after-queries", iTensor2 == sTensor),
+      ("fiber", iFiber == sFiber), ("subtree", iSub == sSub)]
+    let failed := (checks.filter (fun c => !c.2)).map (·.1)
+    let spec := failed.isEmpty
+    let fmts := String.join (levelsTop.map fmtStr)
+    let tags := [s!"fmt:{fmts}", s!"depth:{nR}", if mirror then "mirror" else "MIRROR_BROKEN"] ++ mtags ++
+      (treeTags dflt lv D state).eraseDups ++
+      (if points.any (fun p => p.length == nR) then ["full-point"] else []) ++
+      (if points.any (fun p => p.length < nR && p.length > 0 &&
+          !(fpFibersAt D state p.length).any (fun e => e.1 == some p)) then ["absent-point"] else [])
+    let model := Json.mkObj [("root", jNat rootBits), ("ranks", jList (mRanks.map jNat)),
+      ("tensor", jNat mTensor), ("fiber", jList (mFiber.map optNatJson)),
+      ("subtree", jList (mSub.map optNatJson)),
+      ("spec_ranks", jList (sRanks.map jNat)), ("spec_tensor", jNat sTensor),
+      ("spec_subtree", jList (sSub.map optNatJson)), ("filled_agree", Json.bool filledAgree)]
+    -- the model's numbers are only shipped back when something is off (keeps big runs small)
+    let model := if agree && spec then Json.null else model
+    pure { agree, spec, model, tags,
+           why := if spec then "" else "spec fails on: " ++ ", ".intercalate failed }
 
 end FtDriver
